@@ -20,6 +20,27 @@ fn cells_json(c: &[bool; 5]) -> String {
     format!("[{},{},{},{},{}]", c[0], c[1], c[2], c[3], c[4])
 }
 
+/// A spinning barrier: the threads leave it within nanoseconds of one another.
+struct Spin {
+    count: std::sync::atomic::AtomicUsize,
+    generation: std::sync::atomic::AtomicUsize,
+    n: usize,
+}
+impl Spin {
+    fn wait(&self) {
+        use std::sync::atomic::Ordering::*;
+        let g = self.generation.load(Acquire);
+        if self.count.fetch_add(1, AcqRel) + 1 == self.n {
+            self.count.store(0, Relaxed);
+            self.generation.fetch_add(1, Release);
+        } else {
+            while self.generation.load(Acquire) == g {
+                std::hint::spin_loop();
+            }
+        }
+    }
+}
+
 pub fn run(out: &mut Out, seed: u64) {
     run_n(out, seed, 1)
 }
@@ -96,6 +117,48 @@ pub fn run_n(out: &mut Out, seed: u64, rounds: usize) {
     }
     for h in handles {
         let _ = h.join();
+    }
+    // Lockstep phase (contention runs only): all threads compare the SAME pairs at the same instant, one pair
+    // for every value of the left operand's Q-ratio byte and of its length code: state that is built lazily
+    // per operand VALUE is first touched by eight threads at once.
+    if rounds > 1 {
+        let spin = Arc::new(Spin { count: 0.into(), generation: 0.into(), n: THREADS });
+        let v = variant("Normal");
+        let mut rng = Rng::new(seed ^ 0x5eed);
+        let mut pairs: Vec<(Vec<u8>, Vec<u8>)> = Vec::new();
+        for k in 0..256usize {
+            let (mut a, b) = (image(v, &mut rng), image(v, &mut rng));
+            if !crate::fam_codec::STRICT {
+                a[v.ck_len() + 1] = k as u8;
+                a[v.ck_len()] = (k as u8).wrapping_mul(37);
+            }
+            pairs.push((a, b));
+        }
+        let pairs = Arc::new(pairs);
+        let mut hs = Vec::new();
+        for t in 0..THREADS {
+            let (spin, pairs, lines) = (spin.clone(), pairs.clone(), lines.clone());
+            hs.push(std::thread::spawn(move || {
+                let mut mine = Vec::new();
+                let prepared: Vec<_> = pairs.iter().map(|(a, b)| (v.hash(a).unwrap(), v.hash(b).unwrap())).collect();
+                for (seq, (ha, hb)) in prepared.iter().enumerate() {
+                    let (dynamic, before) = cells();
+                    spin.wait();
+                    let o = ha.compare(hb.as_ref(), false);
+                    let (_, after) = cells();
+                    mine.push(
+                        Ev::new("dcall").num("t", 8 + t as i64).num("seq", seq as i64 + 1).str("op", "cmp").str("v", v.name())
+                            .boolean("dyn", dynamic).raw("before", &cells_json(&before)).raw("after", &cells_json(&after))
+                            .bytes("a1", &pairs[seq].0).bytes("b1", &pairs[seq].1).num("d", o.v.map(|x| x as i64).unwrap_or(-1))
+                            .meas(o.a, &o.p).finish(),
+                    );
+                }
+                lines.lock().unwrap().push((8 + t, mine));
+            }));
+        }
+        for h in hs {
+            let _ = h.join();
+        }
     }
     let mut all = lines.lock().unwrap().clone();
     all.sort_by_key(|x| x.0);
